@@ -52,3 +52,5 @@ CFG = {'harness': 'apps',
                'extraction; harness',
  'note': 'exit status / absence of CSV and the rows (board, channel, edge, ticks) of the real binary and of the proved '
          'model must agree; hardware-model lines must also agree with the event-level specification'}
+
+CFG["level_extra"] = ('NOTE: the time-correctness theorems require fault-free marker sequences; dropped / duplicated markers are covered by the measured relation rel20some only (no wrong non-empty time), truncated tails and corrupted words by the failure theorems.')
